@@ -214,6 +214,56 @@ static void interrupt_prog()
     pmc_outcome("early=%d phase=%d", early, s.interrupted_phase);
 }
 
+// an interruption request issued while the target has interruption disabled and is blocked: the request is
+// refused (thread_not_interruptable) and must not touch the target - its wait ends only when it is released
+static void interrupt_while_disabled_prog()
+{
+    static St s;
+    s = St{};
+    g = &s;
+    static int released, woke_before_release, other_exception, finished_normally, rejected, accepted;
+    released = woke_before_release = other_exception = finished_normally = rejected = accepted = 0;
+    auto& ev = *new pika::experimental::event;
+    pmc_on_stuck(on_stuck);
+    rt::start();
+    rt::spawn([&] {
+        rt::watch_self("owner");
+        pika::thread t([&] {
+            rt::watch_self_full("target");
+            try
+            {
+                pika::this_thread::disable_interruption di;
+                s.phase = 1;
+                ev.wait();    // suspended, interruption disabled
+                if (!released) woke_before_release = 1;
+                s.phase = 2;
+                finished_normally = 1;
+            }
+            catch (pika::thread_interrupted const&) { s.interrupted_phase = s.phase; }
+            catch (...) { other_exception = 1; }
+            s.body_done = 1;
+            pmc_progress();
+        });
+        int guard = 0;
+        while (s.phase < 1 && ++guard < 300) pika::this_thread::yield();
+        try { t.interrupt(); accepted = 1; }
+        catch (pika::exception const& e) { rejected = e.get_error() == pika::error::thread_not_interruptable; }
+        for (int i = 0; i < 2; ++i) pika::this_thread::yield();
+        released = 1;
+        ev.set();
+        s.in_join = 1;
+        t.join();
+        s.in_join = 0;
+        ++s.finished;
+    });
+    rt::stop();
+    PMC_ASSERT(s.finished == 1 && s.body_done, "task-lost", "owner finished %d, target body done %d", s.finished, s.body_done);
+    PMC_ASSERT(rejected && !accepted, "interrupt-while-disabled", "interrupt() of a thread that has interruption disabled was not refused (accepted %d, refused with thread_not_interruptable %d)", accepted, rejected);
+    PMC_ASSERT(!woke_before_release && !other_exception && s.interrupted_phase == -1 && finished_normally, "interrupt-delivery",
+        "a refused interruption request disturbed the target: woke before its release %d, foreign exception %d, interrupted in phase %d, finished normally %d", woke_before_release, other_exception, s.interrupted_phase, finished_normally);
+    pmc_outcome("rejected=%d", rejected);
+}
+
 // an interruption request must end only its target: a request that arrives after the target's last
 // interruption point must not hit the unrelated thread that later reuses the target's thread object
 static void interrupt_not_inherited_prog()
@@ -293,6 +343,7 @@ int main(int argc, char** argv)
         {"jthread_destructor", jthread_prog, 1, 2, 0.2, 0.15, 1, focus, sites, nullptr},
         {"interrupt", interrupt_prog, 1, 2, 0.2, 0.2, 1, focus, sites, nullptr},
         {"interrupt_not_inherited", interrupt_not_inherited_prog, 1, 2, 0.15, 0.15, 1, focus, sites, nullptr},
+        {"interrupt_while_disabled", interrupt_while_disabled_prog, 1, 2, 0.1, 0.1, 1, focus, sites, nullptr},
         {"interrupt_in_noexcept_yield", interrupt_in_yield_prog, 0, 1, 0.02, 0.02, 0, focus, sites, nullptr},
     };
     static const char* assumptions[] = {"sequentially consistent interleavings only", "2 worker threads"};
